@@ -41,7 +41,7 @@ FAMILIES = {
                             invariants=['IndInv', 'Structure', 'FinalStays'], properties=[], timeout=dict(quick=300, thorough=600)),
     # ---- both chains + off-chain roles (Bridge.tla) --------------------------------------------
     'br.one': dict(module='MC_Bridge', fam='one', walker='bridge-walk', scale=U63,
-                   invariants=['Inv_Solvency', 'Inv_Completeness', 'Inv_NoStuck', 'Inv_Holdings', 'Inv_DrainedOK'], properties=[],
+                   invariants=['Inv_Solvency', 'Inv_Completeness', 'Inv_NoStuck', 'Inv_Holdings', 'Inv_DrainedOK'], properties=['P_Flow'],
                    failcap=dict(quick=1, thorough=2), timeout=dict(quick=420, thorough=3000)),
     'br.live': dict(kind='liveness', module='MC_BridgeLive', spec='LiveSpec', temporal=['EventuallyDrained', 'SolvencyAlways'], invariants=[], properties=['EventuallyDrained', 'SolvencyAlways'],
                     timeout=dict(quick=300, thorough=900)),
@@ -93,7 +93,7 @@ TRACES['l2'] = dict(driver='l2-drive', module='Trace_L2', mod='l2', runs=dict(qu
 TRACES['val'] = dict(driver='val-drive', module='Trace_Val', mod='val', runs=dict(quick=10, thorough=120), length=dict(quick=250, thorough=500), timeout=dict(quick=300, thorough=3000),
                      inv_tags=dict(Halted=['C13'], BatchRejectedByEngine=['C13'], IndexBijective=['C13'], Capacity=['C13'], EngineAgrees=['C13']))
 TRACES['br'] = dict(driver='bridge-drive', module='Trace_Bridge', mod='br', runs=dict(quick=9, thorough=40), length=dict(quick=200, thorough=250), timeout=dict(quick=400, thorough=3600),
-                    inv_tags=dict(Solvency=['C08'], Holdings=['C08'], NoStuckTransfer=['C04'], Completeness=['C04', 'C08'], DrainedAfterCanonicalSchedule=['C08', 'C04']))
+                    inv_tags=dict(Solvency=['C08'], Holdings=['C08'], Flow=['C08'], NoStuckTransfer=['C04'], Completeness=['C04', 'C08'], DrainedAfterCanonicalSchedule=['C08', 'C04']))
 
 TRACES['or'] = dict(driver='oracle-drive', module='Trace_Oracle', mod='or', runs=dict(quick=10, thorough=120), length=dict(quick=200, thorough=400), timeout=dict(quick=300, thorough=3000),
                     inv_tags=dict(QuorumSound=['C15'], HeightNotOlder=['C15'], HostSetOnlyForward=['C15'], NoEffectOnReject=['C15']))
